@@ -111,6 +111,8 @@ package tchannel
 //@   atcall Receive arg1 == f && f.Header.ID == item.remapID && f.Header.messageType == old(f.Header.messageType) && f.Header.size == old(f.Header.size)
 //@   label unknown-id-is-not-forwarded
 //@   ensures err == errUnknownID ==> shouldRelease
+//@   label unknown-id-leaves-the-frame-untouched
+//@   ensures err == errUnknownID ==> FrameFull(f) && f.Header.size == old(f.Header.size) && f.Header.ID == old(f.Header.ID)
 //@   label finish-only-after-a-final-frame-was-sent
 //@   atcall finishRelayItem finished && sent
 //@   property C08 C09 C10
@@ -227,4 +229,44 @@ package tchannel
 
 // (the call-req path counts for C08 too: ttl clamp, remapped ids, hand-over)
 //@ func (r *Relayer) handleCallReq(f *lazyCallReq) (shouldRelease bool, err error)
+//@   property C08
+
+// ---------------------------------------------------------------------------
+// the relayer's frame entry point
+// ---------------------------------------------------------------------------
+
+// Relay dispatches a frame read from a relaying connection: call reqs to
+// handleCallReq (after the lazy parse), everything else to handleNonCallReq,
+// and a frame for an id the relay does not know to the connection's own
+// outbound exchanges. relayed(r) counts the frames handed to the relayer.
+//@ func (r *Relayer) Relay(f *Frame) (shouldRelease bool, err error)
+//@   nosafety
+//@   requires FrameFull(f) && f.Header.size >= 16
+//@   requires f.Header.messageType == messageTypeCallReq || f.Header.messageType == messageTypeCallReqContinue || f.Header.messageType == messageTypeCallRes ||
+//@            f.Header.messageType == messageTypeCallResContinue || f.Header.messageType == messageTypeError || f.Header.messageType == messageTypeCancel
+//@   label cancel-frames-relayed-only-when-enabled
+//@   requires f.Header.messageType == messageTypeCancel ==> r.conn.opts.PropagateCancel
+// (configuration: a relayer exists only on channels with a relay host and a
+// validated relay maximum)
+//@   requires r.relayHost != nil && ValidRelayMax(r.maxTimeout)
+// (calls for services the relay channel handles itself take the local path,
+// which is covered by handleLocalCallReq's own contract only)
+//@   requires f.Header.messageType == messageTypeCallReq ==> !has(r.localHandler, bytestr(f.Payload[31:31+u8at(f.Payload, 30)]))
+// (ghost names for "the ttl this frame arrived with" and "the relay maximum in force")
+//@   requires receivedTTL(f) == be32(f.Payload, 1) && relayMaxOf(f) == r.maxTimeout
+//@   modifies all
+//@   defines relayed(r) == old(relayed(r)) + 1
+//@   label released-frames-are-still-held
+//@   ensures shouldRelease ==> own(f) == 1
+//@   label every-error-return-leaves-the-frame-with-the-caller
+//@   ensures err != nil ==> own(f) == 1
+//@   ensures r.conn == old(r.conn) && r.conn.log == old(r.conn.log)
+//@   property C08 C12 C14 C20
+
+// The dispatcher of a relaying connection hands the relayer only frames it can
+// take (the same configuration facts, passed on).
+//@ func (c *Connection) handleFrameRelay(frame *Frame) (release bool)
+//@   requires c.relay.relayHost != nil && ValidRelayMax(c.relay.maxTimeout)
+//@   requires frame.Header.messageType == messageTypeCallReq ==> !has(c.relay.localHandler, bytestr(frame.Payload[31:31+u8at(frame.Payload, 30)]))
+//@   requires receivedTTL(frame) == be32(frame.Payload, 1) && relayMaxOf(frame) == c.relay.maxTimeout
 //@   property C08
